@@ -9,6 +9,7 @@ import (
 	"os/exec"
 	"path/filepath"
 	"sort"
+	"sync"
 	"strings"
 	"time"
 
@@ -271,6 +272,15 @@ func (r *Runner) RunRemote(ctx context.Context, sc *Scenario, binary string) err
 			} else {
 				r.runSign(ctx, st, env.B, op)
 			}
+		case "par":
+			// free-running concurrency over real connections: every sub-request from its own goroutine (and its own HTTP/2 stream)
+			var wg sync.WaitGroup
+			cur := st
+			for _, o := range op.Ops {
+				wg.Add(1)
+				go func(o Op) { defer wg.Done(); r.runSign(ctx, cur, env.B, o) }(o)
+			}
+			wg.Wait()
 		default:
 			return fmt.Errorf("remote: unsupported op kind %s", op.Kind)
 		}
